@@ -35,18 +35,19 @@ class Sub:
 class Doc:
     def __init__(self, a: int, b: str, c: float = 1.0,
                  d: Optional[bool] = None,
-                 e: Optional[Sub] = None) -> None:
+                 e: Optional[Sub] = None, f: int = 0) -> None:
         T(self, locals())
-        self.a, self.b, self.c, self.d, self.e = a, b, c, d, e
+        self.a, self.b, self.c, self.d, self.e, self.f = a, b, c, d, e, f
 
 
 # --------------------------------------------- M1 permissive recogniser
 class Perm:
     """Accepts every node at recognition; the constructor's own type check
     must hold the line."""
-    def __init__(self, a: int, b: List[str], c: Optional[Sub] = None) -> None:
+    def __init__(self, a: int, b: List[str], c: Optional[Sub] = None,
+                 f: int = 0) -> None:
         T(self, locals())
-        self.a, self.b, self.c = a, b, c
+        self.a, self.b, self.c, self.f = a, b, c, f
 
     @classmethod
     def _yatiml_recognize(cls, node: yatiml.UnknownNode) -> None:
@@ -84,6 +85,8 @@ class Sav:
             node.set_attribute('zz', 1)
         if node.has_attribute('boom'):
             raise yatiml.SeasoningError('boom requested')
+        if node.has_attribute('boom2'):
+            raise yatiml.SeasoningError()
 
 
 # ------------------------------------------------ M3 unions / optionals
@@ -221,12 +224,41 @@ class Canvas:
 
 # ------------------------------------------------- raising constructors
 class Picky:
-    def __init__(self, n: int, label: str = 'x') -> None:
+    def __init__(self, n: int, label: str = 'x', f: int = 0) -> None:
         T(self, locals())
         if n < 0:
             raise ValueError('negative')
         if n == 13:
             raise KeyError('unlucky')
+        if n == 14:
+            raise ValueError            # no message
+        assert n != 15                  # bare AssertionError
         if label == 'boom':
             raise yatiml.SeasoningError('seasoning in __init__')
         self.n, self.label = n, label
+
+
+# ------------------------------------------------------------ C04 models
+class Trap:
+    """Registered with the loader, but no typed position of any model admits
+    it: its constructor must never run, whatever the document says."""
+    def __init__(self, x: int) -> None:
+        T(self, locals())
+        self.x = x
+
+
+class Loose2:
+    def __init__(self, a: Any, b=None, s: Optional[Sub] = None,
+                 l: Optional[List[Any]] = None,           # noqa: E741
+                 d: Optional[Dict[str, Any]] = None,
+                 _yatiml_extra: Optional[OrderedDict] = None) -> None:
+        T(self, locals())
+        self.a, self.b, self.s, self.l, self.d = a, b, s, l, d
+        self._yatiml_extra = _yatiml_extra
+
+
+class Holder:
+    def __init__(self, s: Sub, ss: Optional[List[Sub]] = None,
+                 u: Union[Sub, int, None] = None) -> None:
+        T(self, locals())
+        self.s, self.ss, self.u = s, ss, u
